@@ -59,7 +59,7 @@ PROPS = {
     },
     'C19': {
         'engine': 'netsim',
-        'quick': {'runs': 10000, 'steps': (4, 10), 'deadline_s': 60, 'chunk': 100, 'seed': 19},
+        'quick': {'runs': 30000, 'steps': (4, 10), 'deadline_s': 90, 'chunk': 100, 'seed': 19},
         'thorough': {'runs': 150000, 'steps': (6, 16), 'deadline_s': 600, 'chunk': 200, 'seed': 1019},
         'rule': ('one evaluation = one random connected flowsheet (2-10 units, 1-3 ports, 0-3 back '
                  'edges) rebuilt under several (unit-list permutation, seeded hash table) pairs; '
